@@ -143,9 +143,11 @@ def binop(I, op, a, b, node, inplace=False):
                 except (OverflowError, ZeroDivisionError, ValueError):
                     raise Unsupported("pow")
             # symbolic exponent: uninterpreted pow (only congruence is used, A-REAL)
-            f = z3.Function("pow_real", z3.RealSort(), z3.RealSort(), z3.RealSort())
-            I.ctx.result.assumptions.add("A-REAL: x ** y with a symbolic exponent is an uninterpreted function pow_real(x, y)")
-            return f(sym.zreal(a), sym.zreal(b))
+            I.ctx.result.assumptions.add("A-REAL: x ** y with a symbolic exponent is uninterpreted (fresh constant per argument pair)")
+            key = ("pow", sym.zreal(a).get_id(), sym.zreal(b).get_id())
+            if key not in I.ctx.trig_cache:
+                I.ctx.trig_cache[key] = I.ctx.fresh("pow", "Real")
+            return I.ctx.trig_cache[key]
     raise Unsupported(
         f"binary {type(op).__name__} on {type(a).__name__},{type(b).__name__} at line {_ln(node)}"
     )
@@ -972,9 +974,9 @@ def _log(I, x, *base):
         raise Unsupported("log with base")
     if I.ctx.branch(sym.num_cmp("<=", x, 0), None):
         raise PyRaise("ValueError", "math domain error")
-    l = I.ctx.uninterp("log", x)
     zx = sym.zreal(x)
     key = ("log", zx.get_id())
+    l = I.ctx.uninterp("log_u", x)
     if key not in I.ctx.trig_cache:
         I.ctx.trig_cache[key] = l
         I.ctx.assume((l == 0) == (zx == 1))
